@@ -24,6 +24,11 @@ example : Facts.Auth.serverDefaultMethods = "auth.VerifyMethodBasic, auth.Verify
 example : Facts.Auth.clientRetryGuard = true := by decide
 example : Facts.Auth.serverClosesOnProvided = true := by decide
 example : Facts.Auth.nonceBytes = 16 := by decide
+/-- Basic credentials are split at the first `:` (the model's `splitUserPass`); the former
+`strings.Split` + `len != 2` (defect `auth-basic-colon-password`, repaired) must not come back -/
+example : Facts.Auth.basicCutFirstColon = true ∧ Facts.Auth.basicLegacySplit = false := by decide
+example : Facts.Auth.basicStdEncoding = true := by decide
+example : Facts.Auth.credentialsProvidedRule = true ∧ Facts.Auth.emptyUserRejected = true := by decide
 
 /-! ## what `Verify` accepts, exactly -/
 
@@ -259,5 +264,657 @@ example : HexLike realHashes ∧ ValidMethods (some [vmSHA256, vmBasic, vmMD5]) 
     WF b!"jürgen, the=admin" b!"Login to 4K, please" b!"" b!"rtsp://[::1]:8554/a%20b/c?x=1&y=/trackID=12" :=
   ⟨realHashes_hexLike, ⟨by decide, by unfold ValidMethod; decide⟩, ⟨by decide, by unfold ValidMethod; decide⟩,
    ⟨by unfold NoQuote; decide, by decide, by unfold NoQuote; decide, by unfold NoQuote; decide, by unfold NoQuote; decide⟩⟩
+
+
+
+/-! ## Digest soundness relative to the hash -/
+
+/-- the digest response as a function of one hash `h` -/
+def respWith (h : Bytes → Bytes) (user realm pass nonce method uri : Bytes) : Bytes :=
+  h (h (user ++ [cColon] ++ realm ++ [cColon] ++ pass) ++ [cColon] ++ nonce ++ [cColon] ++
+     h (method ++ [cColon] ++ uri))
+
+/-- the hash a Digest header selects -/
+def algHash (H : Hashes) : Option Alg → Bytes → Bytes
+  | some .sha256 => H.sha256
+  | _ => H.md5
+
+theorem digestResponse_eq (H : Hashes) (alg : Option Alg) (user realm pass nonce method uri : Bytes) :
+    digestResponse H alg user realm pass nonce method uri
+      = respWith (algHash H alg) user realm pass nonce method uri := by
+  cases alg with
+  | none => rfl
+  | some a => cases a <;> rfl
+
+theorem colon_split_inj (m m' u u' : Bytes) (hm : ∀ c ∈ m, c ≠ cColon) (hm' : ∀ c ∈ m', c ≠ cColon)
+    (h : m' ++ [cColon] ++ u' = m ++ [cColon] ++ u) : m' = m ∧ u' = u := by
+  have h1 := takeWhile_stop (p := fun c => c != cColon) m cColon u
+    (by intro x hx; simpa using hm x hx) (by simp)
+  have h2 := takeWhile_stop (p := fun c => c != cColon) m' cColon u'
+    (by intro x hx; simpa using hm' x hx) (by simp)
+  have e : m' ++ cColon :: u' = m ++ cColon :: u := by simpa using h
+  have t : m' = m := by
+    have := congrArg (List.takeWhile (fun c => c != cColon)) e
+    rw [h1.1, h2.1] at this; exact this
+  have d : cColon :: u' = cColon :: u := by
+    have := congrArg (List.dropWhile (fun c => c != cColon)) e
+    rw [h1.2, h2.2] at this; exact this
+  exact ⟨t, by simpa using d⟩
+
+/-- **Forgery needs a collision.**  If a response computed (for the expected user, realm, nonce)
+from a different password, or for a different method, or for a different URI, equals the response
+the server computes, then the hash has a collision: two distinct inputs with the same digest.
+(`hlen`: digests have a fixed length, as hex digests do; methods contain no `:`.) -/
+theorem digest_forgery_needs_collision (h : Bytes → Bytes)
+    (hlen : ∀ x y, (h x).length = (h y).length)
+    (user realm nonce pass pass' m m' uri uri' : Bytes)
+    (hm : ∀ c ∈ m, c ≠ cColon) (hm' : ∀ c ∈ m', c ≠ cColon)
+    (hne : pass' ≠ pass ∨ m' ≠ m ∨ uri' ≠ uri)
+    (hacc : respWith h user realm pass' nonce m' uri' = respWith h user realm pass nonce m uri) :
+    ∃ x y, x ≠ y ∧ h x = h y := by
+  unfold respWith at hacc
+  by_cases hO :
+      h (user ++ [cColon] ++ realm ++ [cColon] ++ pass') ++ [cColon] ++ nonce ++ [cColon] ++ h (m' ++ [cColon] ++ uri')
+    = h (user ++ [cColon] ++ realm ++ [cColon] ++ pass) ++ [cColon] ++ nonce ++ [cColon] ++ h (m ++ [cColon] ++ uri)
+  · have hO' : h (user ++ [cColon] ++ realm ++ [cColon] ++ pass') ++ ([cColon] ++ nonce ++ [cColon] ++ h (m' ++ [cColon] ++ uri'))
+        = h (user ++ [cColon] ++ realm ++ [cColon] ++ pass) ++ ([cColon] ++ nonce ++ [cColon] ++ h (m ++ [cColon] ++ uri)) := by
+      simpa [List.append_assoc] using hO
+    obtain ⟨hA, hT⟩ := List.append_inj hO' (hlen _ _)
+    have hB : h (m' ++ [cColon] ++ uri') = h (m ++ [cColon] ++ uri) := List.append_cancel_left hT
+    rcases hne with hp | hmu
+    · refine ⟨_, _, ?_, hA⟩
+      intro e
+      exact hp (List.append_cancel_left e)
+    · refine ⟨_, _, ?_, hB⟩
+      intro e
+      have := colon_split_inj m m' uri uri' hm hm' e
+      rcases hmu with h1 | h1
+      · exact h1 this.1
+      · exact h1 this.2
+  · exact ⟨_, _, hO, hacc⟩
+
+/-- non-vacuity: the real MD5 hex digest has fixed length, `DESCRIBE` / `PLAY` contain no colon -/
+example : (∀ x y, (realHashes.md5 x).length = (realHashes.md5 y).length) ∧
+    (∀ c ∈ b!"DESCRIBE", c ≠ cColon) ∧ (∀ c ∈ b!"PLAY", c ≠ cColon) ∧ (b!"PLAY" ≠ b!"DESCRIBE") :=
+  ⟨fun x y => by simp [realHashes, md5_hex_length], by decide, by decide, by decide⟩
+
+/-- soundness, Digest, in terms of what the client side computed: if the header built by
+`Sender.AddAuthorization` from the challenge `ch` for `(user', pass', method', url')` is accepted
+by `Verify` for `(user, pass, realm, nonce)` on request `req`, then the challenge's realm and
+nonce and the user name are the expected ones, the URL it was computed for `urlMatches` the
+request, and the response computed by the client equals the one the server computes. -/
+theorem sound_digest_sender (H : Hashes) (hH : HexLike H) (req : Req) (user pass user' pass' : Bytes)
+    (methods : Option (List VerifyMethod)) (realm nonce : Bytes) (ch : Authenticate) (method' url' : Bytes)
+    (hch : ch.method = .digest)
+    (hq : NoQuote user' ∧ NoQuote ch.realm ∧ NoQuote ch.nonce ∧ NoQuote url')
+    (hreq : req.authz = addAuthorization H ch user' pass' method' url')
+    (hok : verify H req user pass methods realm nonce = .ok) :
+    ch.realm = realm ∧ ch.nonce = nonce ∧ user' = user ∧
+    urlMatches req.urlStr req.urlReq url' (req.method == b!"SETUP") = true ∧
+    respWith (algHash H ch.algorithm) user realm pass' nonce method' url'
+      = respWith (algHash H ch.algorithm) user realm pass nonce req.method url' := by
+  have hresp : NoQuote (digestResponse H ch.algorithm user' ch.realm pass' ch.nonce method' url') := by
+    rw [digestResponse_eq]; unfold respWith algHash
+    cases ch.algorithm with
+    | none => exact hH.1 _
+    | some a => cases a; exact hH.1 _; exact hH.2 _
+  have hrt := authorization_digest_roundtrip (senderAuthorization H ch user' pass' method' url')
+    (by simp [senderAuthorization, hch]) (by simp [senderAuthorization, hch])
+    (by simpa [senderAuthorization, hch] using ⟨hq.1, hq.2.1, hq.2.2.1, hq.2.2.2, hresp⟩)
+  have hp : Authorization.unmarshal req.authz = some (senderAuthorization H ch user' pass' method' url') := by
+    rw [hreq]; exact hrt
+  have hs := sound_digest H req user pass methods realm nonce _ hp (by simp [senderAuthorization, hch]) hok
+  simp only [senderAuthorization, hch] at hs
+  obtain ⟨h1, h2, h3, h4, h5, _⟩ := hs
+  refine ⟨h2, h1, h3, h4, ?_⟩
+  rw [digestResponse_eq, digestResponse_eq] at h5
+  rw [h1, h2, h3] at h5
+  exact h5
+
+/-- **Every single-field deviation is rejected, or the hash is broken.**  With the hypotheses of
+`sound_digest_sender` and fixed-length digests: acceptance forces realm, nonce and user to be the
+expected ones and the URL to match, and then either password and method are the expected ones too,
+or the selected hash has a collision. -/
+theorem digest_deviation_rejected_or_collision (H : Hashes) (hH : HexLike H)
+    (hlen : ∀ alg x y, (algHash H alg x).length = (algHash H alg y).length)
+    (req : Req) (user pass user' pass' : Bytes)
+    (methods : Option (List VerifyMethod)) (realm nonce : Bytes) (ch : Authenticate) (method' url' : Bytes)
+    (hch : ch.method = .digest)
+    (hq : NoQuote user' ∧ NoQuote ch.realm ∧ NoQuote ch.nonce ∧ NoQuote url')
+    (hm : ∀ c ∈ req.method, c ≠ cColon) (hm' : ∀ c ∈ method', c ≠ cColon)
+    (hreq : req.authz = addAuthorization H ch user' pass' method' url')
+    (hok : verify H req user pass methods realm nonce = .ok) :
+    ch.realm = realm ∧ ch.nonce = nonce ∧ user' = user ∧
+    urlMatches req.urlStr req.urlReq url' (req.method == b!"SETUP") = true ∧
+    ((pass' = pass ∧ method' = req.method) ∨
+      ∃ x y, x ≠ y ∧ algHash H ch.algorithm x = algHash H ch.algorithm y) := by
+  obtain ⟨h1, h2, h3, h4, h5⟩ := sound_digest_sender H hH req user pass user' pass' methods realm nonce ch
+    method' url' hch hq hreq hok
+  refine ⟨h1, h2, h3, h4, ?_⟩
+  by_cases hpm : pass' = pass ∧ method' = req.method
+  · exact Or.inl hpm
+  · right
+    apply digest_forgery_needs_collision (algHash H ch.algorithm) (hlen ch.algorithm) user realm nonce
+      pass pass' req.method method' url' url' hm hm' ?_ h5
+    by_cases hp : pass' = pass
+    · right; left; intro e; exact hpm ⟨hp, e⟩
+    · left; exact hp
+
+/-- the real digests have fixed lengths -/
+theorem realHashes_fixed_length : ∀ alg x y,
+    (algHash realHashes alg x).length = (algHash realHashes alg y).length := by
+  intro alg x y
+  cases alg with
+  | none => simp [algHash, realHashes, md5_hex_length]
+  | some a => cases a <;> simp [algHash, realHashes, md5_hex_length, sha256_hex_length]
+
+/-- relabelling the algorithm: a response that is an MD5 digest is never accepted under
+`algorithm="SHA-256"` and vice versa, as soon as the two digests have different lengths. -/
+theorem algorithm_relabel_rejected (H : Hashes)
+    (hlen : ∀ x y, (H.md5 x).length ≠ (H.sha256 y).length)
+    (req : Req) (user pass : Bytes) (methods : Option (List VerifyMethod)) (realm nonce : Bytes)
+    (a : Authorization) (hp : Authorization.unmarshal req.authz = some a) (hd : a.method = .digest)
+    (hcross : (a.algorithm = some .sha256 ∧ ∃ z, a.response = H.md5 z) ∨
+              (a.algorithm ≠ some .sha256 ∧ ∃ z, a.response = H.sha256 z)) :
+    verify H req user pass methods realm nonce ≠ .ok := by
+  intro hok
+  have hs := (sound_digest H req user pass methods realm nonce a hp hd hok).2.2.2.2.1
+  rw [digestResponse_eq] at hs
+  rcases hcross with ⟨ha, z, hz⟩ | ⟨ha, z, hz⟩
+  · rw [ha, hz] at hs
+    exact hlen _ _ (congrArg List.length hs)
+  · have : algHash H a.algorithm = H.md5 := by
+      cases h : a.algorithm with
+      | none => rfl
+      | some x => cases x; rfl; exact absurd h ha
+    rw [this, hz] at hs
+    exact hlen _ _ (congrArg List.length hs).symm
+
+example : ∀ x y, (realHashes.md5 x).length ≠ (realHashes.sha256 y).length := by
+  intro x y; simp [realHashes, md5_hex_length, sha256_hex_length]
+
+
+
+/-! ## the server's decision: 401 + challenge and keep, or close -/
+
+/-- **401 vs close** (`handleAuthError` + the reader loop).  When the application handler reports
+an authentication failure (`liberrors.ErrServerAuth`) with some status (401 in practice):
+* if the request carries no credentials — no Authorization header, one that does not parse, or
+  one with an empty user name — the response gets a `WWW-Authenticate` header with one challenge
+  per enabled method for the connection's nonce, the error is cleared and the connection is kept;
+* if it carries credentials (parsable, non-empty user name), no challenge is added and the
+  connection is closed after the response.
+There is no retry counter: the rule is per request.  Other handler errors close the connection,
+no error keeps it. -/
+theorem server_401_vs_close (methods : List VerifyMethod) (c : Conn) (authz : List Bytes) (status : Nat) :
+    (credentialsProvided authz = false →
+      handleOuter methods c authz status .auth =
+        { status := status, www := some (generateWWW (some methods) serverAuthRealm c.nonce), closed := false }) ∧
+    (credentialsProvided authz = true →
+      handleOuter methods c authz status .auth = { status := status, www := none, closed := true }) ∧
+    handleOuter methods c authz status .none = { status := status, www := none, closed := false } ∧
+    handleOuter methods c authz status .other = { status := status, www := none, closed := true } := by
+  refine ⟨?_, ?_, rfl, rfl⟩
+  · intro h; simp [handleOuter, h]
+  · intro h; simp [handleOuter, h]
+
+/-- what counts as "credentials provided" -/
+theorem credentialsProvided_iff (authz : List Bytes) :
+    credentialsProvided authz = true ↔
+      ∃ a, Authorization.unmarshal authz = some a ∧ a.username ≠ [] := by
+  unfold credentialsProvided
+  cases h : Authorization.unmarshal authz with
+  | none => simp
+  | some a => simp
+
+theorem credentialsProvided_nil : credentialsProvided [] = false := by decide
+
+/-- a request without Authorization header on a connection served by the `authHandler`
+(non-empty expected user): 401, one challenge per method carrying the connection's nonce (drawn
+now if this is the first `VerifyCredentials` on the connection), connection kept. -/
+theorem serve_no_credentials (H : Hashes) (methods : List VerifyMethod) (user pass : Bytes) (hu : user ≠ [])
+    (c : Conn) (n : Bytes) (req : Req) (hreq : req.authz = []) :
+    let nonce' := if c.nonce = [] then n else c.nonce
+    serve H methods user pass c (some n) req =
+      ({ nonce := nonce', closed := c.closed },
+       { status := 401, www := some (generateWWW (some methods) serverAuthRealm nonce'), closed := false }) := by
+  have hv : ∀ nn, verify H req user pass (some methods) serverAuthRealm nn = .error .header := by
+    intro nn; apply no_header_rejected; rw [hreq]; decide
+  by_cases hc : c.nonce = []
+  · simp [serve, authHandler, verifyCredentials, hu, hc, hv, handleOuter, hreq, credentialsProvided_nil]
+  · simp [serve, authHandler, verifyCredentials, hu, hc, hv, handleOuter, hreq, credentialsProvided_nil]
+
+/-- accepted credentials: 200, no challenge, connection kept -/
+theorem serve_right_credentials (H : Hashes) (methods : List VerifyMethod) (user pass : Bytes) (hu : user ≠ [])
+    (c : Conn) (hc : c.nonce ≠ []) (fresh : Option Bytes) (req : Req)
+    (hok : verify H req user pass (some methods) serverAuthRealm c.nonce = .ok) :
+    serve H methods user pass c fresh req = (c, { status := 200, www := none, closed := false }) := by
+  simp [serve, authHandler, verifyCredentials, hu, hc, hok, handleOuter]
+
+/-- rejected credentials (parsable header, non-empty user name): 401 without challenge and the
+connection is closed -/
+theorem serve_wrong_credentials (H : Hashes) (methods : List VerifyMethod) (user pass : Bytes) (hu : user ≠ [])
+    (c : Conn) (hc : c.nonce ≠ []) (fresh : Option Bytes) (req : Req)
+    (hprov : credentialsProvided req.authz = true)
+    (hrej : verify H req user pass (some methods) serverAuthRealm c.nonce ≠ .ok) :
+    serve H methods user pass c fresh req =
+      ({ c with closed := true }, { status := 401, www := none, closed := true }) := by
+  have : (verify H req user pass (some methods) serverAuthRealm c.nonce == VerifyRes.ok) = false := by
+    simpa using hrej
+  simp [serve, authHandler, verifyCredentials, hu, hc, this, handleOuter, hprov]
+
+/-- unparsable header or empty user name: treated like no credentials -/
+theorem serve_unusable_credentials (H : Hashes) (methods : List VerifyMethod) (user pass : Bytes) (hu : user ≠ [])
+    (c : Conn) (hc : c.nonce ≠ []) (fresh : Option Bytes) (req : Req)
+    (hprov : credentialsProvided req.authz = false)
+    (hrej : verify H req user pass (some methods) serverAuthRealm c.nonce ≠ .ok) :
+    serve H methods user pass c fresh req =
+      (c, { status := 401, www := some (generateWWW (some methods) serverAuthRealm c.nonce), closed := false }) := by
+  have : (verify H req user pass (some methods) serverAuthRealm c.nonce == VerifyRes.ok) = false := by
+    simpa using hrej
+  simp [serve, authHandler, verifyCredentials, hu, hc, this, handleOuter, hprov]
+
+example : ∃ req : Req, credentialsProvided req.authz = false ∧ req.authz ≠ [] :=
+  ⟨{ method := [], urlStr := [], urlReq := [], authz := [b!"Basic OnB3"] }, by decide, by decide⟩
+
+theorem serverAuthRealm_noQuote : NoQuote serverAuthRealm := by unfold NoQuote; decide
+
+/-- what the client side's header looks like to `credentialsProvided` -/
+theorem credentialsProvided_sender (H : Hashes) (hH : HexLike H) (ch : Authenticate) (user pass method url : Bytes)
+    (hu : user ≠ []) (hq : NoQuote user ∧ NoQuote ch.realm ∧ NoQuote ch.nonce ∧ NoQuote url)
+    (hc : ∀ c ∈ user, c ≠ cColon) :
+    credentialsProvided (addAuthorization H ch user pass method url) = true := by
+  rw [credentialsProvided_iff]
+  cases hm : ch.method with
+  | basic =>
+    refine ⟨{ method := .basic, username := user, basicPass := pass }, ?_, hu⟩
+    have := authorization_basic_roundtrip user pass hc
+    simpa [addAuthorization, senderAuthorization, hm] using this
+  | digest =>
+    refine ⟨senderAuthorization H ch user pass method url, ?_, by simpa [senderAuthorization, hm] using hu⟩
+    have hresp : NoQuote (digestResponse H ch.algorithm user ch.realm pass ch.nonce method url) := by
+      unfold digestResponse
+      cases ch.algorithm with
+      | none => exact hH.1 _
+      | some a => cases a; exact hH.1 _; exact hH.2 _
+    exact authorization_digest_roundtrip _ (by simp [senderAuthorization, hm]) (by simp [senderAuthorization, hm])
+      (by simpa [senderAuthorization, hm] using ⟨hq.1, hq.2.1, hq.2.2.1, hq.2.2.2, hresp⟩)
+
+/-! ## the client's retry and the whole handshake -/
+
+/-- `Client.do` sends the request at most twice -/
+theorem client_at_most_one_retry {σ : Type} (H : Hashes) (srv : σ → Req → σ × Resp) (s : σ)
+    (sender : Option (Authenticate × Bytes × Bytes)) (r : ClientReq) :
+    (clientDo H srv s sender r).2.2.1.length ≤ 2 := by
+  cases hcred : r.cred <;> cases hs : senderInit (srv s (wireReq H sender r)).2.www <;>
+    simp [clientDo, hcred, hs] <;> split <;> simp
+
+/-- no credentials in the URL, or a sender already set: no retry -/
+theorem client_no_retry {σ : Type} (H : Hashes) (srv : σ → Req → σ × Resp) (s : σ)
+    (sender : Option (Authenticate × Bytes × Bytes)) (r : ClientReq)
+    (h : r.cred = none ∨ sender ≠ none) :
+    (clientDo H srv s sender r).2.2.1 = [wireReq H sender r] := by
+  unfold clientDo
+  rcases h with h | h
+  · simp [h]
+  · cases sender with
+    | none => exact absurd rfl h
+    | some x => simp
+
+/-- **Handshake, right credentials.**  A client holding `user:pass` in its URL, against a fresh
+connection of a server whose handler expects the same `user`, `pass` (any valid method list, any
+nonce without `"`): exactly two requests go out — the first without, the second with an
+Authorization header — the final status is 200 and the connection stays open. -/
+theorem handshake_right (H : Hashes) (hH : HexLike H) (methods : List VerifyMethod)
+    (hm : ValidMethods (some methods)) (user pass n method url urlReq : Bytes)
+    (hu : user ≠ []) (hn : n ≠ []) (wf : WF user serverAuthRealm n url) :
+    let r : ClientReq := { method := method, urlStr := url, urlReq := urlReq, cred := some (user, pass) }
+    let out := clientDo H (serveResp H methods user pass (some n)) ({} : Conn) none r
+    out.1 = { nonce := n, closed := false } ∧
+    out.2.2.1.length = 2 ∧
+    out.2.2.2 = .resp { status := 200, www := [] } ∧
+    (∃ ch, out.2.1 = some (ch, user, pass)) := by
+  intro r out
+  obtain ⟨ch, hinit, hver⟩ := complete H hH (some methods) hm user pass serverAuthRealm n method url urlReq wf
+  have h1 := serve_no_credentials H methods user pass hu ({} : Conn) n
+    { method := method, urlStr := url, urlReq := urlReq, authz := [] } rfl
+  simp only [if_true] at h1
+  have h2 := serve_right_credentials H methods user pass hu { nonce := n, closed := false } hn (some n)
+    { method := method, urlStr := url, urlReq := urlReq, authz := addAuthorization H ch user pass method url } hver
+  have hout : out = ({ nonce := n, closed := false }, some (ch, user, pass),
+      [wireReq H none r, wireReq H (some (ch, user, pass)) r], .resp { status := 200, www := [] }) := by
+    simp only [out, clientDo, serveResp, wireReq, r, h1]
+    simp [hinit, h2]
+  rw [hout]
+  exact ⟨rfl, rfl, rfl, ch, rfl⟩
+
+/-- **Handshake, wrong credentials.**  Same setting, but the client's credentials are rejected
+by `Verify` (e.g. another password — see `digest_deviation_rejected_or_collision`, `sound_basic`):
+two requests, final status 401 and the server has closed the connection. -/
+theorem handshake_wrong (H : Hashes) (hH : HexLike H) (methods : List VerifyMethod)
+    (hm : ValidMethods (some methods)) (user pass cuser cpass n method url urlReq : Bytes)
+    (hu : user ≠ []) (hcu : cuser ≠ []) (hn : n ≠ []) (wf : WF cuser serverAuthRealm n url)
+    (hrej : ∀ ch, senderInit (generateWWW (some methods) serverAuthRealm n) = some ch →
+      verify H { method := method, urlStr := url, urlReq := urlReq,
+                 authz := addAuthorization H ch cuser cpass method url }
+        user pass (some methods) serverAuthRealm n ≠ .ok) :
+    let r : ClientReq := { method := method, urlStr := url, urlReq := urlReq, cred := some (cuser, cpass) }
+    let out := clientDo H (serveResp H methods user pass (some n)) ({} : Conn) none r
+    out.1 = { nonce := n, closed := true } ∧
+    out.2.2.1.length = 2 ∧
+    out.2.2.2 = .resp { status := 401, www := [] } := by
+  intro r out
+  obtain ⟨hne, hv⟩ := hm
+  have hinit := senderInit_chosen serverAuthRealm n wf.realm_noquote wf.nonce_noquote methods hv hne
+  have hinit' : senderInit (generateWWW (some methods) serverAuthRealm n)
+      = some (chosen serverAuthRealm n methods) := hinit
+  have hcan : NoQuote (chosen serverAuthRealm n methods).realm ∧ NoQuote (chosen serverAuthRealm n methods).nonce := by
+    unfold chosen
+    split
+    · simp only [challengeFor_sha]; exact ⟨wf.realm_noquote, wf.nonce_noquote⟩
+    · split
+      · simp only [challengeFor_md5]; exact ⟨wf.realm_noquote, wf.nonce_noquote⟩
+      · simp only [challengeFor_basic]; exact ⟨wf.realm_noquote, by intro c hc; simp at hc⟩
+  have hprov := credentialsProvided_sender H hH (chosen serverAuthRealm n methods) cuser cpass method url hcu
+    ⟨wf.user_noquote, hcan.1, hcan.2, wf.url_noquote⟩ wf.user_nocolon
+  have h1 := serve_no_credentials H methods user pass hu ({} : Conn) n
+    { method := method, urlStr := url, urlReq := urlReq, authz := [] } rfl
+  simp only [if_true] at h1
+  have h2 := serve_wrong_credentials H methods user pass hu { nonce := n, closed := false } hn (some n)
+    { method := method, urlStr := url, urlReq := urlReq,
+      authz := addAuthorization H (chosen serverAuthRealm n methods) cuser cpass method url } hprov (hrej _ hinit')
+  have hout : out = ({ nonce := n, closed := true }, some (chosen serverAuthRealm n methods, cuser, cpass),
+      [wireReq H none r, wireReq H (some (chosen serverAuthRealm n methods, cuser, cpass)) r],
+      .resp { status := 401, www := [] }) := by
+    simp only [out, clientDo, serveResp, wireReq, r, h1]
+    simp [hinit', h2]
+  rw [hout]
+  exact ⟨rfl, rfl, rfl⟩
+
+
+
+/-! ## the URL relaxations, exactly -/
+
+/-- `s` is a track URL with base `p`: `p` ends in `/`, has at least one more character before
+it and no line feed, and `s = p ++ "trackID=" ++ digits` (at least one digit).  This is the
+regular expression `^(.+/)trackID=[0-9]+$` with `p` its capture group. -/
+def TrackURL (s p : Bytes) : Prop :=
+  ∃ ds, s = p ++ b!"trackID=" ++ ds ∧ ds ≠ [] ∧ (∀ d ∈ ds, isDigit d = true) ∧
+    p.getLast? = some cSlash ∧ 2 ≤ p.length ∧ cLF ∉ p
+
+theorem takeWhile_all {p : UInt8 → Bool} (l : Bytes) (h : ∀ x ∈ l, p x = true) :
+    l.takeWhile p = l ∧ l.dropWhile p = [] := by
+  induction l with
+  | nil => simp
+  | cons x l ih =>
+    have hx := h x (by simp)
+    have := ih (fun y hy => h y (by simp [hy]))
+    simp [hx, this]
+
+theorem mem_takeWhile_true {p : UInt8 → Bool} (l : Bytes) (x : UInt8) (h : x ∈ l.takeWhile p) : p x = true := by
+  have := List.all_takeWhile (l := l) (p := p)
+  rw [List.all_eq_true] at this
+  exact this x h
+
+theorem takeWhile_digits_stop (ds rest : Bytes) (hd : ∀ d ∈ ds, isDigit d = true)
+    (hr : ∀ c, rest.head? = some c → isDigit c = false) :
+    (ds ++ rest).takeWhile isDigit = ds ∧ (ds ++ rest).dropWhile isDigit = rest := by
+  cases rest with
+  | nil =>
+    simp only [List.append_nil]
+    exact takeWhile_all ds hd
+  | cons c r => exact takeWhile_stop ds c r hd (hr c rfl)
+
+theorem trackBase_of_trackURL (s p : Bytes) (h : TrackURL s p) : trackBase s = some p := by
+  obtain ⟨ds, hs, hne, hd, hlast, hlen, hlf⟩ := h
+  have hrev : s.reverse = ds.reverse ++ (b!"=DIkcart" ++ p.reverse) := by
+    rw [hs]; simp [List.reverse_append]
+  have htd := takeWhile_digits_stop ds.reverse (b!"=DIkcart" ++ p.reverse)
+    (by intro d hd'; exact hd d (List.mem_reverse.mp hd'))
+    (by intro c hc; simp at hc; subst hc; decide)
+  unfold trackBase
+  simp only [hrev, htd.1, htd.2]
+  have hne' : ds.reverse.isEmpty = false := by
+    cases ds with
+    | nil => exact absurd rfl hne
+    | cons a b => simp
+  have hpre : (b!"=DIkcart").isPrefixOf (b!"=DIkcart" ++ p.reverse) = true := by
+    simp [List.isPrefixOf]
+  have hdrop : (b!"=DIkcart" ++ p.reverse).drop 8 = p.reverse := by simp
+  simp only [hne', hpre, hdrop, if_true, Bool.false_eq_true, if_false]
+  -- p.reverse = '/' :: q with q ≠ []
+  cases hp : p.reverse with
+  | nil =>
+    have : p = [] := by simpa using hp
+    subst this; simp at hlen
+  | cons c q =>
+    have hc : c = cSlash := by
+      have : p.reverse.head? = some cSlash := by simpa [List.head?_reverse] using hlast
+      rw [hp] at this; simpa using this
+    have hq : q.isEmpty = false := by
+      cases q with
+      | nil =>
+        have : p.reverse.length = 1 := by rw [hp]; rfl
+        simp at this; omega
+      | cons _ _ => rfl
+    have hlf' : (c :: q).contains cLF = false := by
+      have : cLF ∉ p.reverse := by simpa using hlf
+      rw [hp] at this
+      simpa using this
+    have hback : (c :: q).reverse = p := by rw [← hp]; simp
+    subst hc
+    simp only [true_and, hq, hlf', Bool.not_false, if_true, hback]
+
+theorem trackURL_of_trackBase (s p : Bytes) (h : trackBase s = some p) : TrackURL s p := by
+  unfold trackBase at h
+  simp only at h
+  split at h
+  · cases h
+  · rename_i hne
+    split at h
+    · rename_i hpre
+      have hpre' : b!"=DIkcart" <+: s.reverse.dropWhile isDigit := List.isPrefixOf_iff_prefix.mp hpre
+      obtain ⟨t, ht⟩ := hpre'
+      have hdrop : (s.reverse.dropWhile isDigit).drop 8 = t := by rw [← ht]; simp
+      rw [hdrop] at h
+      cases t with
+      | nil => simp at h
+      | cons c q =>
+        simp only at h
+        split at h
+        · rename_i hcond
+          obtain ⟨hc, hq, hlf⟩ := hcond
+          cases h
+          have hsplit : s.reverse = s.reverse.takeWhile isDigit ++ s.reverse.dropWhile isDigit :=
+            (List.takeWhile_append_dropWhile).symm
+          refine ⟨(s.reverse.takeWhile isDigit).reverse, ?_, ?_, ?_, ?_, ?_, ?_⟩
+          · have key : s = (b!"=DIkcart" ++ c :: q).reverse ++ (s.reverse.takeWhile isDigit).reverse := by
+              have h1 : s.reverse.reverse
+                  = (s.reverse.takeWhile isDigit ++ s.reverse.dropWhile isDigit).reverse := by
+                rw [List.takeWhile_append_dropWhile]
+              rw [List.reverse_reverse, List.reverse_append, ← ht] at h1
+              exact h1
+            refine key.trans ?_
+            simp
+          · intro e
+            have : s.reverse.takeWhile isDigit = [] := by simpa using e
+            simp [this] at hne
+          · intro d hd
+            exact mem_takeWhile_true _ d (List.mem_reverse.mp hd)
+          · simp [List.getLast?_reverse, hc]
+          · cases q with
+            | nil => simp at hq
+            | cons _ _ => simp
+          · have hno : cLF ∉ c :: q := by
+              intro hin
+              have : (c :: q).contains cLF = true := List.contains_iff_mem.mpr hin
+              rw [this] at hlf; cases hlf
+            intro hmem
+            exact hno (List.mem_reverse.mp hmem)
+        · cases h
+    · cases h
+
+/-- `trackBase` is the capture group of the control-attribute pattern -/
+theorem trackBase_iff (s p : Bytes) : trackBase s = some p ↔ TrackURL s p :=
+  ⟨trackURL_of_trackBase s p, trackBase_of_trackURL s p⟩
+
+/-- **The URL relaxations are exactly these.**  The digest URI `received` is accepted for a request
+to `urlStr` (abs_path `urlReq`) iff it is the URL itself, or the abs_path form of it (RFC 2617
+3.2.2), or — for SETUP only — the base of the track URL with or without its trailing slash. -/
+theorem url_relaxation_exact (urlStr urlReq received : Bytes) (isSetup : Bool) :
+    urlMatches urlStr urlReq received isSetup = true ↔
+      received = urlStr ∨
+      (received.head? = some cSlash ∧ received = urlReq) ∨
+      (isSetup = true ∧ ∃ p, TrackURL urlStr p ∧ (received = p ∨ received ++ [cSlash] = p)) := by
+  have hpre : (b!"/").isPrefixOf received = true ↔ received.head? = some cSlash := by
+    cases received with
+    | nil => simp [List.isPrefixOf]
+    | cons c r =>
+      simp only [List.isPrefixOf, List.head?_cons, Option.some.injEq, cSlash, Bool.and_true, beq_iff_eq]
+      exact eq_comm
+  unfold urlMatches
+  constructor
+  · intro h
+    split at h
+    · rename_i hc
+      simp only [Bool.or_eq_true, Bool.and_eq_true, beq_iff_eq] at hc
+      rcases hc with ⟨h1, h2⟩ | h2
+      · exact Or.inr (Or.inl ⟨hpre.mp h1, h2⟩)
+      · exact Or.inl h2
+    · split at h
+      · rename_i hs
+        cases htb : trackBase urlStr with
+        | none => simp [htb] at h
+        | some p =>
+          simp only [htb, Bool.or_eq_true, beq_iff_eq] at h
+          exact Or.inr (Or.inr ⟨hs, p, (trackBase_iff _ _).mp htb, h⟩)
+      · cases h
+  · intro h
+    rcases h with h | ⟨h1, h2⟩ | ⟨hs, p, htp, hr⟩
+    · rw [if_pos]; simp [h]
+    · rw [if_pos]; rw [hpre.mpr h1]; simp [h2]
+    · split
+      · rfl
+      · simp only [(trackBase_iff _ _).mpr htp, Bool.or_eq_true, beq_iff_eq]
+        exact hr
+
+/-- outside SETUP there is no relaxation beyond the two spellings of the request URL -/
+theorem url_strict_unless_setup (urlStr urlReq received : Bytes) :
+    urlMatches urlStr urlReq received false = true ↔
+      received = urlStr ∨ (received.head? = some cSlash ∧ received = urlReq) := by
+  rw [url_relaxation_exact]; simp
+
+/-- non-vacuity: the unit-test URL of pkg/auth and its base -/
+example : TrackURL b!"rtsp://myhost/mypath?key=val/trackID=3" b!"rtsp://myhost/mypath?key=val/" :=
+  ⟨b!"3", by decide, by decide, by decide, by decide, by decide, by decide⟩
+
+
+
+/-! ## each hypothesis of `complete` is needed (counterexamples, evaluated by the kernel) -/
+
+/-- a toy pair of hex-like "digests" for the counterexamples -/
+def toyHashes : Hashes := { md5 := fun _ => b!"0", sha256 := fun _ => b!"1" }
+
+example : HexLike toyHashes :=
+  ⟨fun _ => by show NoQuote b!"0"; unfold NoQuote; decide, fun _ => by show NoQuote b!"1"; unfold NoQuote; decide⟩
+
+def toyReq (authz : List Bytes) : Req :=
+  { method := b!"PLAY", urlStr := b!"rtsp://h/p", urlReq := b!"/p", authz := authz }
+
+/-- realm containing `"`: the challenge parses back with a truncated realm, Verify says "wrong realm" -/
+example : senderInit (generateWWW (some [vmMD5]) b!"a\"b" b!"n")
+      = some { method := .digest, realm := b!"a", nonce := b!"n", algorithm := some .md5 } ∧
+    verify toyHashes (toyReq (addAuthorization toyHashes
+        { method := .digest, realm := b!"a", nonce := b!"n", algorithm := some .md5 } b!"u" b!"p" b!"PLAY" b!"rtsp://h/p"))
+      b!"u" b!"p" (some [vmMD5]) b!"a\"b" b!"n" = .error .realm := by decide
+
+/-- nonce containing `"` -/
+example : senderInit (generateWWW (some [vmSHA256]) b!"r" b!"n\"")
+      = some { method := .digest, realm := b!"r", nonce := b!"n", algorithm := some .sha256 } ∧
+    verify toyHashes (toyReq (addAuthorization toyHashes
+        { method := .digest, realm := b!"r", nonce := b!"n", algorithm := some .sha256 } b!"u" b!"p" b!"PLAY" b!"rtsp://h/p"))
+      b!"u" b!"p" (some [vmSHA256]) b!"r" b!"n\"" = .error .nonce := by decide
+
+/-- user name containing `"` (Digest) -/
+example : verify toyHashes (toyReq (addAuthorization toyHashes
+        { method := .digest, realm := b!"r", nonce := b!"n", algorithm := some .md5 } b!"u\"x" b!"p" b!"PLAY" b!"rtsp://h/p"))
+      b!"u\"x" b!"p" (some [vmMD5]) b!"r" b!"n" = .error .user := by decide
+
+/-- user name containing `:` (Basic) -/
+example : verify toyHashes (toyReq (addAuthorization toyHashes
+        { method := .basic, realm := b!"r" } b!"a:b" b!"c" b!"PLAY" b!"rtsp://h/p"))
+      b!"a:b" b!"c" (some [vmBasic]) b!"r" b!"n" = .error .user := by decide
+
+/-- URL text containing `"` -/
+example : verify toyHashes
+      { method := b!"PLAY", urlStr := b!"rtsp://h/p?a=\"b\"", urlReq := b!"/p?a=\"b\"",
+        authz := addAuthorization toyHashes { method := .digest, realm := b!"r", nonce := b!"n", algorithm := some .md5 }
+          b!"u" b!"p" b!"PLAY" b!"rtsp://h/p?a=\"b\"" }
+      b!"u" b!"p" (some [vmMD5]) b!"r" b!"n" = .error .url := by decide
+
+/-- a method value outside the three named ones: the challenge issued is SHA-256, which `Verify`
+does not consider enabled -/
+example : senderInit (generateWWW (some [3]) b!"r" b!"n")
+      = some { method := .digest, realm := b!"r", nonce := b!"n", algorithm := some .sha256 } ∧
+    verify toyHashes (toyReq (addAuthorization toyHashes
+        { method := .digest, realm := b!"r", nonce := b!"n", algorithm := some .sha256 } b!"u" b!"p" b!"PLAY" b!"rtsp://h/p"))
+      b!"u" b!"p" (some [3]) b!"r" b!"n" = .error .noMethod := by decide
+
+/-- an empty (non-nil) method list: no challenge, the sender has nothing to work with -/
+example : generateWWW (some []) b!"r" b!"n" = [] ∧ senderInit [] = none := by decide
+
+/-- Basic credentials are one text `user:pass`: without the restriction on the client's user
+name, `("a:b", "c")` is accepted where `("a", "b:c")` is expected -/
+example : verify toyHashes (toyReq (addAuthorization toyHashes
+        { method := .basic, realm := b!"r" } b!"a:b" b!"c" b!"PLAY" b!"rtsp://h/p"))
+      b!"a" b!"b:c" (some [vmBasic]) b!"r" b!"n" = .ok := by decide
+
+
+
+/-! ## what the server really issues is well-formed -/
+
+/-- `auth.GenerateNonce`: the hex text of 16 random bytes — 32 characters, none of them `"` -/
+theorem generated_nonce_ok (bs : List UInt8) (h : bs.length = Facts.Auth.nonceBytes) :
+    NoQuote (Hex.encode bs) ∧ (Hex.encode bs).length = 32 ∧ Hex.encode bs ≠ [] := by
+  have hl : (Hex.encode bs).length = 32 := by
+    rw [Hex.length_encode, h]; decide
+  refine ⟨hex_noQuote bs, hl, ?_⟩
+  intro e; rw [e] at hl; cases hl
+
+example : ∃ bs : List UInt8, bs.length = Facts.Auth.nonceBytes := ⟨List.replicate 16 0, by decide⟩
+
+/-- the URL a client-built Digest header may name, spelled out: the request URL, or (never the
+case for `auth.Sender`, which always writes an absolute URL) its abs_path, or for SETUP the track
+URL's base with or without the trailing slash -/
+theorem sound_url (H : Hashes) (hH : HexLike H) (req : Req) (user pass user' pass' : Bytes)
+    (methods : Option (List VerifyMethod)) (realm nonce : Bytes) (ch : Authenticate) (method' url' : Bytes)
+    (hch : ch.method = .digest)
+    (hq : NoQuote user' ∧ NoQuote ch.realm ∧ NoQuote ch.nonce ∧ NoQuote url')
+    (hreq : req.authz = addAuthorization H ch user' pass' method' url')
+    (hok : verify H req user pass methods realm nonce = .ok) :
+    url' = req.urlStr ∨ (url'.head? = some cSlash ∧ url' = req.urlReq) ∨
+    (req.method = b!"SETUP" ∧ ∃ p, TrackURL req.urlStr p ∧ (url' = p ∨ url' ++ [cSlash] = p)) := by
+  have h := (sound_digest_sender H hH req user pass user' pass' methods realm nonce ch method' url' hch hq hreq hok).2.2.2.1
+  rw [url_relaxation_exact] at h
+  rcases h with h | h | ⟨hs, h⟩
+  · exact Or.inl h
+  · exact Or.inr (Or.inl h)
+  · exact Or.inr (Or.inr ⟨by simpa using hs, h⟩)
+
+/-- the handshake with the nonce the server really draws (any 16 random bytes) -/
+theorem handshake_right_generated_nonce (H : Hashes) (hH : HexLike H) (methods : List VerifyMethod)
+    (hm : ValidMethods (some methods)) (user pass method url urlReq : Bytes) (rnd : List UInt8)
+    (hrnd : rnd.length = Facts.Auth.nonceBytes)
+    (hu : user ≠ []) (hq : NoQuote user) (hc : ∀ c ∈ user, c ≠ cColon) (hurl : NoQuote url) :
+    let r : ClientReq := { method := method, urlStr := url, urlReq := urlReq, cred := some (user, pass) }
+    let out := clientDo H (serveResp H methods user pass (some (Hex.encode rnd))) ({} : Conn) none r
+    out.1.closed = false ∧ out.2.2.1.length = 2 ∧ out.2.2.2 = .resp { status := 200, www := [] } := by
+  intro r out
+  obtain ⟨hn1, _, hn3⟩ := generated_nonce_ok rnd hrnd
+  have := handshake_right H hH methods hm user pass (Hex.encode rnd) method url urlReq hu hn3
+    ⟨hq, hc, serverAuthRealm_noQuote, hn1, hurl⟩
+  simp only at this
+  obtain ⟨h1, h2, h3, _⟩ := this
+  exact ⟨by simp only [out, r]; rw [h1], h2, h3⟩
 
 end Rtsp.Auth
